@@ -216,9 +216,20 @@ pub fn check_c03(e: &Engine, w: &Workload, seed: u64, rep: &mut Report) -> Vec<&
                             }
                         }
                     }
-                    HandlerOut::RequestFailed(id, _) => {
+                    HandlerOut::RequestFailed(id, err) => {
                         if let Some(q) = reqs.get_mut(&id.0) {
                             q.terminal = true;
+                        }
+                        // a WHOAREYOU from another socket than the one the request went to is not
+                        // acted on: in particular it cannot fail the request the way a second
+                        // WHOAREYOU from the peer does
+                        if let Some((i_idx, _, _, c)) = &cur {
+                            if super::wire::foreign_whoareyou(c).is_some() {
+                                rep.count("foreign_whoareyou_steps_with_a_failure");
+                                if matches!(err, discv5::RequestError::InvalidRemotePacket) {
+                                    rep.violation("C03:whoareyou-from-wrong-address-acted-on", format!("request {} failed as after a second WHOAREYOU, in reaction to a WHOAREYOU that came from another socket than the request went to", hx(&id.0)), witness("d", *i_idx));
+                                }
+                            }
                         }
                         if matches!(&expect_fail, Some((rid, _)) if *rid == id.0) {
                             expect_fail = None;
